@@ -458,6 +458,10 @@ compile:
 // monitorTaskStats monitors stats (e.g. records read/written) of the task
 // running on m, updating task's status until ctx is done.
 func monitorTaskStats(ctx context.Context, m *sliceMachine, task *Task) {
+	// The status of this run of the task. task.Status is overwritten (under
+	// the task's lock) when the task is run again, possibly while we are
+	// still finishing our last poll.
+	status := task.Status
 	wait := func() {
 		select {
 		case <-time.After(statsPollInterval):
@@ -472,7 +476,7 @@ func monitorTaskStats(ctx context.Context, m *sliceMachine, task *Task) {
 			wait()
 			continue
 		}
-		task.Status.Printf("%s: %s", m.Addr, *vals)
+		status.Printf("%s: %s", m.Addr, *vals)
 		wait()
 	}
 }
